@@ -7,12 +7,45 @@ import (
 	"os"
 	"strings"
 
+	"github.com/btcsuite/btcd/database/ffldb"
+	"github.com/btcsuite/btcd/database/veriftreap"
+
 	"verifharness/core"
 )
 
 type P struct{}
 
 func (P) ID() string { return "C05" }
+
+// ---------------------------------------------------------------- facts (T2)
+
+func (P) Facts() []core.Fact {
+	var fs []core.Fact
+	for k, v := range ffldb.VerifConstsC05() {
+		fs = append(fs, core.Fact{Name: k, Value: v})
+	}
+	bytesOf := func(b []byte) []int64 {
+		r := make([]int64, len(b))
+		for i, x := range b {
+			r[i] = int64(x)
+		}
+		return r
+	}
+	for k, v := range ffldb.VerifNamesC05() {
+		fs = append(fs, core.Fact{Name: k, Value: bytesOf([]byte(v))})
+	}
+	m := veriftreap.NewMutable()
+	m.Put([]byte{}, []byte{})
+	fs = append(fs,
+		core.Fact{Name: "treapNodeOverhead", Value: int64(m.Size())},
+		core.Fact{Name: "writeRowZero", Value: bytesOf(ffldb.VerifSerializeWriteRow(0, 0))},
+		core.Fact{Name: "writeRowSample", Value: bytesOf(ffldb.VerifSerializeWriteRow(3, 82))},
+		core.Fact{Name: "blockLocSample", Value: bytesOf(ffldb.VerifSerializeBlockLoc(1, 258, 65536+7))},
+		core.Fact{Name: "bucketizedKeySample", Value: bytesOf(ffldb.VerifBucketizedKey([4]byte{0, 0, 1, 2}, []byte{0xab}))},
+		core.Fact{Name: "bucketIndexKeySample", Value: bytesOf(ffldb.VerifBucketIndexKey([4]byte{0, 0, 1, 2}, []byte{0xab}))},
+	)
+	return fs
+}
 
 func (p P) Exec(line string) string {
 	out := p.exec(line)
